@@ -676,7 +676,10 @@ def _report(prop, tier, seed, results, timeouts, wall, only):
         if sum(r.get("skipped_budget", 0) for r in rs):
             warnings_.append(f"{sc.name}: wall-clock budget used up, {sum(r.get('skipped_budget', 0) for r in rs)} generated cases not evaluated")
         if conclusive == 0 and not any(r["violation"] for r in rs):
-            vacuous.append(sc.name)
+            if set(inc) == {"atheris_unavailable"}:
+                warnings_.append(f"{sc.name}: atheris could not be imported (run tools/setup.py); coverage-guided campaigns skipped")
+            else:
+                vacuous.append(sc.name)
         for lab in getattr(sc, "expected_classes", ()):
             if cl.get(lab, 0) == 0:
                 warnings_.append(f"{sc.name}: class '{lab}' empty in this run")
